@@ -268,6 +268,18 @@ theorem edns_slot_noninterference (qs : List EdnsReq) (hq : ∀ q ∈ qs, q.hasO
         | false => rw [hq0 h] at hc; cases hc
       simp [ednsServe, EdnsSlot.enter, EdnsSlot.replyCookie, hc, ho]
 
+/-! ### replies built from stored or borrowed messages -/
+
+/-- **A reply built from a cache entry or from an internal sub-response carries
+the client's own id and question**, whatever question the entry was admitted
+under (another client's 0x20 spelling), however many cached segments an alias
+chase walks, and whatever id the internal sub-query drew. -/
+theorem reply_identity_is_requests (q : WireReq) (e : WireEntry) (segs : List WireEntry) (sub : WireReply) :
+    (hitReply q e).id = q.id ∧ (hitReply q e).question = q.question ∧
+    (chaseReply q segs).id = q.id ∧ (chaseReply q segs).question = q.question ∧
+    (basisReply q sub).id = q.id ∧ (basisReply q sub).question = q.question := by
+  simp [hitReply, chaseReply, basisReply]
+
 /-! ### the pooled sub-query writer -/
 
 /-- **A sub-query gets its own response or none.** For any sequence of internal
@@ -506,6 +518,10 @@ example : ednsMany {} [{ hasOpt := true, cookie := some 7 }, { hasOpt := true },
     { hasOpt := true, cookie := some 9, doBit := true }] = [some 7, none, none, some 9] := by decide
 -- carrier: a pin of the previous request is gone after reset
 example : (((({} : Carrier).tryPin 5 105).1.reset 1).pinned 5) = none ∧ ((({} : Carrier).tryPin 5 105).1.pinned 5) = some 105 := by
+  decide
+
+-- an entry admitted as "WWW" answers a client that asked "www": the reply says "www"
+example : (hitReply { id := 5, question := [119, 119, 119] } { question := [87, 87, 87], answers := [1] }).question = [119, 119, 119] := by
   decide
 
 -- sub-queries: a withheld response (id 8) is not handed to the silent sub-query that follows
